@@ -1811,15 +1811,26 @@ size_t rtosc_scan_arg_val(const char* src,
                 src+=rd;
                 float secfracsf;
 
+                // scan into temporaries: sscanf() assigns the hour before it
+                // notices that no ':' follows, e.g. for a date followed by
+                // another value ("2000-01-01 2017-03-22")
+                int hour, min, sec;
                 rd = 0;
-                sscanf(src, " %2d:%2d%n", &m_tm.tm_hour, &m_tm.tm_min, &rd);
+                sscanf(src, " %2d:%2d%n", &hour, &min, &rd);
                 if(rd)
-                 src+=rd;
+                {
+                    m_tm.tm_hour = hour;
+                    m_tm.tm_min = min;
+                    src+=rd;
 
-                rd = 0;
-                sscanf(src, ":%2d%n", &m_tm.tm_sec, &rd);
-                if(rd)
-                 src+=rd;
+                    rd = 0;
+                    sscanf(src, ":%2d%n", &sec, &rd);
+                    if(rd)
+                    {
+                        m_tm.tm_sec = sec;
+                        src+=rd;
+                    }
+                }
 
                 uint64_t secfracs;
 
